@@ -307,7 +307,10 @@ impl Minifier
 			if let (Some(statement),Some(next)) = (curs.node().parent(),curs.node().next_sibling()) {
 				if let Some(tok) = statement.child(0) {
 					if tok.kind() == "tok_print" {
-						if next.kind() == ";" {
+						let next_txt = lang::node_text(&next,&self.line);
+						if next_txt.trim_start().starts_with("+") || next_txt.trim_start().starts_with("-") {
+							// without the separator the sign would become an operator joining the two items
+						} else if next.kind() == ";" {
 							return Ok(Navigation::GotoSibling);
 						} else if next.kind() == "str" {
 							return Ok(Navigation::GotoSibling);
